@@ -34,7 +34,7 @@ RULE = ("C03's query stream over nasty-name documents; every match x {test, test
 ASSUMPTIONS = ["oracle = 10-line get/set/delete by parts on a deep copy; equality is strict JSON equality with str keys only"]
 
 NEW = {"new": [True, 1]}
-INTISH = ["0", "1", "2", "10", "-1", "+1", " 1", "01", "-0", "1_0", "１", "1.0", "1e0", "00"]
+INTISH = ["0", "1", "2", "10", "-1", "+1", " 1", "01", "-0", "1_0", "１", "1.0", "1e0", "00", "1\u0663", "13", "1\uff11", "11"]
 
 
 def set_by_parts(doc, parts, value):
@@ -113,6 +113,20 @@ def judge(stats: Stats, text, doc, origin):
             stats.fail("replace:raised:%s" % type(r).__name__, c, "replace(%r) on %s raised %s: %s" % (str(ptr), short(doc, 160), type(r).__name__, r))
         elif is_cyclic(r) or not jeq(r, want):
             stats.fail("replace:wrong-document", c, "replace(%r) on %s gave %s, expected %s" % (str(ptr), short(doc, 160), short(r, 200), short(want, 200)))
+        # the same through the pointer's text (C03: the text parsed again denotes the same node)
+        want = set_by_parts(copy.deepcopy(doc), parts, copy.deepcopy(NEW))
+        k, r = apply(stats, c, "replace-by-text", JSONPatch(unicode_escape=False).replace(str(ptr), copy.deepcopy(NEW)), copy.deepcopy(doc))
+        if k == "err":
+            stats.fail("replace-by-text:raised:%s" % type(r).__name__, c, "replace(%r as text) on %s raised %s: %s" % (str(ptr), short(doc, 160), type(r).__name__, r))
+        elif is_cyclic(r) or not jeq(r, want):
+            stats.fail("replace-by-text:wrong-document", c, "replace(%r as text) on %s gave %s, expected %s" % (str(ptr), short(doc, 160), short(r, 200), short(want, 200)))
+        if parts:
+            want = del_by_parts(copy.deepcopy(doc), parts)
+            k, r = apply(stats, c, "remove-by-text", JSONPatch(unicode_escape=False).remove(str(ptr)), copy.deepcopy(doc))
+            if k == "err":
+                stats.fail("remove-by-text:raised:%s" % type(r).__name__, c, "remove(%r as text) on %s raised %s: %s" % (str(ptr), short(doc, 160), type(r).__name__, r))
+            elif not jeq(r, want):
+                stats.fail("remove-by-text:wrong-document", c, "remove(%r as text) on %s gave %s, expected %s" % (str(ptr), short(doc, 160), short(r, 200), short(want, 200)))
         # remove
         if parts:
             want = del_by_parts(copy.deepcopy(doc), parts)
